@@ -10,7 +10,7 @@ import types
 from harness import core, tomodel
 from harness.props import c18
 
-LEVEL = "proof"
+LEVEL = "translation_validation"
 NAMES = ["idle", "load", "work", "done", "fail", "wait", "left", "right", "deep", "aux", "end", "hold", "scan", "pack", "ship", "bill",
          "open", "shut", "warm", "cool", "fast", "slow", "high", "low", "red", "blue", "one", "two", "six", "ten"]
 F16 = dict(kind="dsl-differs", cause="states-referenced-by-bare-name")
@@ -533,7 +533,9 @@ def run(rep, ctx):
                              "harness); second builds, builds after mutating the first result, and a second definition reusing the same State "
                              "objects; discovery: providers / modules implementing the required names in snake_case or as written, each name "
                              "removed in turn, composite guards nested three deep, built-ins, spawn_ directives",
-                        samples=[dict(styles=styles)], traces_validated_against_impl=len(pairs),
+                        samples=[dict(styles=styles)] + [dict(style=label, spec=spec) for _, _, spec, label in pairs[:2]],
+                        traces_validated_against_impl=len(pairs),
+                        programs=len(pairs), disagreements_checked=len(pairs) - certified,
                         components={"tree-equality (Coq)": dict(pairs=len(pairs), certified_equal=certified, by_style=styles),
                                     "discovery": dict(configs=n_disc)})
     core.decide(rep, ctx["proof"], disagreements, failures, None)
